@@ -1496,4 +1496,89 @@ example : (decompress 7 "gzip".toList (.gzip [[1,2],[3]] false)).1 = ⟨true, .b
 example : (decompress 7 "GZIP".toList (.gzip [[1,2],[3]] false)).1 = ⟨true, .untouchedGzip, false⟩ := by decide
 
 
+/-! ## nested requests (a handler serving another request through the same middleware instance) -/
+
+theorem runProg_append (a b : List Op) : ∀ s : St,
+    runProg s (a ++ b) = ((runProg (runProg s a).1 b).1, (runProg s a).2 ++ (runProg (runProg s a).1 b).2) := by
+  induction a with
+  | nil => intro s; simp [runProg]
+  | cons op a ih => intro s; simp [runProg, ih]
+
+/-- running the ops before and after a nested request is running the program -/
+theorem serveSplit_eq (m : Nat) (pool : Pool) (ae : List Char) (a b : List Op) :
+    serveSplit m pool ae a b = serve m pool ⟨ae, a ++ b⟩ := by
+  unfold serveSplit serve
+  simp only [runProg_append]
+
+theorem servePooled_result (m : Nat) (pools : List Pool) (rq : Req) :
+    (servePooled m pools rq).1 = (serve m {} rq).1 := by
+  unfold servePooled
+  split
+  · exact C15_pool_clean m _ {} rq
+  · rfl
+
+/-- **C15_nested_independent** — a request served from inside another request's handler, through
+    the same middleware instance and pools, and the request around it each get exactly the
+    response they would get alone; where in the outer program the nested one happens, and what
+    the pools held, does not matter. -/
+theorem C15_nested_independent (m : Nat) (pools : List Pool) (rq : NReq) :
+    (serveNested m pools rq).1 =
+      (serve m {} rq.outer).1 :: (match rq.inner with | none => [] | some i => [(serve m {} i).1]) := by
+  unfold serveNested
+  simp only [serveSplit_eq, List.take_append_drop]
+  cases hi : rq.inner with
+  | none => simp [C15_pool_clean m _ {} rq.outer]
+  | some i => simp [C15_pool_clean m _ {} rq.outer, servePooled_result]
+
+theorem C15_nested_sequence (m : Nat) (rs : List NReq) : ∀ ps : List Pool,
+    serveNestedAll m ps rs = rs.flatMap (fun r => (serveNested m [] r).1) := by
+  induction rs with
+  | nil => intro _; rfl
+  | cons r rs ih =>
+    intro ps
+    simp only [serveNestedAll, List.flatMap_cons]
+    rw [ih, C15_nested_independent m ps r, C15_nested_independent m [] r]
+
+theorem decompressPooled_result (pool : List Nat) (ce : List Char) (body : Body) :
+    (decompressPooled pool ce body).1 = (decompress 0 ce body).1 := by
+  unfold decompressPooled
+  split
+  · rfl
+  · exact C15_decompress_pool_clean _ 0 ce body
+
+/-- **C15_decompress_nested** — a request whose handler serves another (gzip or not) request
+    through the same Decompress instance between its own body reads: both handlers see exactly
+    their own body, whatever readers the pool held. -/
+theorem C15_decompress_nested (pool : List Nat) (rq : DReq) :
+    (decompressReq pool rq).1 =
+      (decompress 0 rq.ce rq.body).1 ::
+        (match rq.nested with
+         | none => []
+         | some (ce, b) => if (decompress 0 rq.ce rq.body).1.ran then [(decompress 0 ce b).1] else []) := by
+  unfold decompressReq
+  have h := C15_decompress_pool_clean
+  cases hn : rq.nested with
+  | none => simp [h _ 0 rq.ce rq.body]
+  | some p =>
+    obtain ⟨ce, b⟩ := p
+    simp only [h _ 0 rq.ce rq.body, List.cons.injEq, true_and]
+    split <;> simp [decompressPooled_result]
+
+theorem C15_decompress_nested_sequence (rs : List DReq) : ∀ p : List Nat,
+    decompressSeq p rs = rs.flatMap (fun r => (decompressReq [] r).1) := by
+  induction rs with
+  | nil => intro _; rfl
+  | cons r rs ih =>
+    intro p
+    simp only [decompressSeq, List.flatMap_cons]
+    rw [ih, C15_decompress_nested p r, C15_decompress_nested [] r]
+
+-- non-vacuity: the outer request holds the reader an earlier request left (state 1), the nested one
+-- gets the next one; both see their own bytes
+example : (decompressReq [1, 1] ⟨"gzip".toList, .gzip [[1,2],[3]] false, some ("gzip".toList, .gzip [[9]] false)⟩).1
+    = [⟨true, .bytes [1,2,3], false⟩, ⟨true, .bytes [9], false⟩] := by decide
+example : (serveNested 2 [] ⟨⟨"gzip".toList, [.write [1], .write [2,3]]⟩, 1, some ⟨"gzip".toList, [.write [7,7,7]]⟩⟩).1.map
+    (fun r => canon r.raw.body) = [.gzip [1,2,3] true false, .gzip [7,7,7] true false] := by decide
+
+
 end C15
